@@ -202,7 +202,12 @@ def run_impl(ctx, seed, n, sub, replay_file=None, engines="mem", nb=0):
         cmd = "%s -replay %s -out %s -port %d" % (binp, replay_file, d, port)
     else:
         cmd = "%s -seed %d -n %d -nb %d -engines %s -out %s -port %d" % (binp, seed, n, nb, engines, d, port)
-    rc, out, dt = sh(cmd, cwd=d, timeout=1500)
+    rc, out, dt = sh(cmd, cwd=d, timeout=3000)
+    if rc == 3:
+        # the live server (child process) did not come up or died: time/port dependent, one retry
+        rc, out, dt = sh(cmd, cwd=d, timeout=3000)
+    if rc == 3:
+        return None, "INCONCLUSIVE " + out
     if rc != 0:
         return None, out
     rc2, out2, dt2 = sh("%s < cases.tsv > model.out" % vlib.modelrun_path("Sync"), cwd=d, timeout=1200)
@@ -244,14 +249,20 @@ def run(ctx):
                             f.write(line if line.endswith("\n") else line + "\n")
             runs.append(dict(sub="corpus", replay=cf))
         if quick:
-            runs.append(dict(sub="fresh", n=600, nb=0, engines="mem"))
+            runs.append(dict(sub="fresh", n=400, nb=10, engines="mem"))
         else:
-            runs.append(dict(sub="fresh", n=12000, nb=0, engines="mem,pebble,rocksdb"))
+            runs.append(dict(sub="fresh", n=12000, nb=150, engines="mem,pebble,rocksdb"))
+            runs.append(dict(sub="fresh-pebble-live", n=0, nb=60, engines="pebble"))
 
     all_mism, all_fail, total, evals, hist_all, samples, distinct = [], [], 0, 0, {}, [], set()
     for r in runs:
         d, err = run_impl(ctx, ctx.seed, r.get("n", 0), r["sub"], replay_file=r.get("replay"),
                           engines=r.get("engines", "mem"), nb=r.get("nb", 0))
+        if d is None and err.startswith("INCONCLUSIVE") and r.get("nb", 0) > 0 and not r.get("replay"):
+            ctx.notes.append("live server inconclusive twice (start/ports); live cases of run %s skipped" % r["sub"])
+            if r.get("n", 0) == 0:
+                continue
+            d, err = run_impl(ctx, ctx.seed, r.get("n", 0), r["sub"], engines=r.get("engines", "mem"), nb=0)
         if d is None:
             log("HARNESS RUN FAILED:\n" + err[-3000:])
             raise SystemExit(2)
@@ -271,7 +282,9 @@ def run(ctx):
     evals = hist_all.get("ops", 0)
 
     def search():
-        d2, err = run_impl(ctx, ctx.seed + 1000003, 6000, "search", engines="mem,pebble")
+        d2, err = run_impl(ctx, ctx.seed + 1000003, 6000, "search", engines="mem,pebble", nb=40)
+        if d2 is None:
+            d2, err = run_impl(ctx, ctx.seed + 1000003, 6000, "search", engines="mem,pebble")
         if d2 is None:
             return []
         cases = parse_cases(os.path.join(d2, "cases.tsv"))
@@ -292,12 +305,15 @@ def run(ctx):
              "proposals, local writes, snapshots and restarts (restore + replay of the log tail in batches of 1-4); class ord = "
              "first occurrences follow the source order (oracle: replica data = source data), class any = arbitrary losses/"
              "re-ordering/gaps (oracle: at most once, in order). Non-trivial = at least one duplicate delivery and at least one "
-             "snapshot or restart; distinct by hash of the schedule. evaluations = schedule steps executed on the real code.",
+             "snapshot or restart; distinct by hash of the schedule. evaluations = schedule steps executed on the real code. "
+             "kind B = the same against the real grpc handlers server.ApplyRaftReqs/GetSyncedRaft of a live single-replica server "
+             "in a child process (real raft, WAL, snapshots every 5 entries), restart = SIGKILL + new process on the same directory.",
         histogram=hist_all,
         mismatches=len(all_mism),
         samples=samples[:4],
     ), assumptions=[
         "the receiving cluster runs in syncer-only mode (node.SetSyncerOnly(true)): no conflict check against local writes",
-        "the local raft group is played by the harness for the bare-node cases (commit order = proposal order, a lost proposal never commits)",
+        "the local raft group is played by the harness for the bare-node cases (commit order = proposal order, a lost proposal never commits); "
+        "the live-server cases use a real single-replica raft group",
         "source logs are well-formed: indices strictly increasing and >= 1, terms non-decreasing (hypothesis of the exactly-once theorems)",
     ])
